@@ -81,6 +81,14 @@ def dea(case):
                     r3, e3 = dea3(*seq[:3])
                     if not abs(res - r3[0]) <= 1e-9 * max(1.0, abs(r3[0])):
                         bad.append(dict(limexp=limexp, sequence=name, term=2, dea=res, dea3=float(r3[0]))); break
+    # first three terms == dea3, also for triples that touch zero
+    for tri in [(2.0, 0.5, 0.0), (3.0, 1.0, 0.0), (-1.0, 0.0, 0.5), (0.0, 1.0, 1.5), (77.0, 21.0, 5.0)]:
+        d = Dea(limexp=7)
+        for v in tri:
+            res, err = d(v)
+        r3 = float(dea3(*tri)[0][0])
+        if not abs(res - r3) <= 1e-9 * max(1.0, abs(r3)):
+            bad.append(dict(terms=tri, dea_after_three_terms=float(res), dea3=r3))
     # outside the guards the table holds the even columns of Wynn's epsilon table: a limit plus k geometric transients is
     # an entry of the table after 2k+1 terms (k = 1, 2, 3)
     for k, (L, amps, qs) in enumerate([(1.5, [3.5], [0.6]), (2.0, [2.5, 0.5], [0.8, 0.3]), (-1.0, [1.0, -2.0, 0.7], [0.7, 0.45, -0.2])], start=1):
